@@ -215,8 +215,7 @@ SO3TangentBase<_Derived>::ljacinv() const
 
   return Jacobian::Identity() -
     Scalar(0.5) * W +
-    (Scalar(1) / theta_sq - (Scalar(1) + cos(theta)) / (Scalar(2) * theta * sin(theta))) *
-    W * W;
+    internal::oneMinusHalfThetaCotHalfThetaByThetaSq(theta, theta_sq) * W * W;
 }
 
 template <typename _Derived>
